@@ -38,7 +38,13 @@ fn gen_step(rng: &mut Rng) -> PStep {
         5 => ("cart", vec![]),
         6 => (
             "helmert",
-            vec![("x".into(), rng.int(-90, 90).to_string()), ("y".into(), rng.int(-90, 90).to_string()), ("z".into(), rng.int(-90, 90).to_string()), ("s".into(), (rng.int(-9, 9) * 100000).to_string())],
+            vec![
+                // (also numbers with a signed exponent: a + inside a value is not a PROJ prefix)
+                ("x".into(), if rng.chance(0.2) { format!("{}e+1", rng.int(-9, 9)) } else { rng.int(-90, 90).to_string() }),
+                ("y".into(), if rng.chance(0.2) { format!("{}.5e-1", rng.int(-9, 9)) } else { rng.int(-90, 90).to_string() }),
+                ("z".into(), rng.int(-90, 90).to_string()),
+                ("s".into(), if rng.chance(0.2) { format!("{}e+5", rng.int(-9, 9)) } else { (rng.int(-9, 9) * 100000).to_string() }),
+            ],
         ),
         7 => ("axisswap", vec![("order".into(), rng.pick(&["2,1", "2,1,3", "1,-2", "3,1,2"]).to_string())]),
         8 => ("unitconvert", vec![("xy_in".into(), rng.pick(&["km", "deg", "m"]).to_string()), ("xy_out".into(), rng.pick(&["m", "rad", "ft"]).to_string())]),
@@ -444,6 +450,30 @@ fn other(h: &H, idx: u64, rng: &mut Rng) {
         "init=epsg:4326 proj=utm zone=32".to_string(),
         "+init=epsg:25832".to_string() + " +proj=noop",
     ];
+    // an init clause at any position of a step, with or without + and modifiers around it
+    let mut refused: Vec<String> = refused.to_vec();
+    for _ in 0..3 {
+        let mut words: Vec<String> = vec!["proj=utm".into(), "zone=32".into()];
+        if rng.chance(0.5) {
+            words.push("inv".into());
+        }
+        if rng.chance(0.3) {
+            words.push("omit_fwd".into());
+        }
+        if rng.chance(0.3) {
+            words.push("ellps=intl".into());
+        }
+        rng.shuffle(&mut words);
+        let at = rng.below(words.len() + 1);
+        words.insert(at, format!("init=epsg:{}", rng.int(1000, 9999)));
+        let plus = rng.chance(0.5);
+        let step: String = words.iter().map(|w| if plus { format!("+{w}") } else { w.clone() }).collect::<Vec<_>>().join(" ");
+        refused.push(match rng.below(3) {
+            0 => step,
+            1 => format!("{}proj=pipeline {}step {step}", if plus { "+" } else { "" }, if plus { "+" } else { "" }),
+            _ => format!("{p}proj=pipeline {p}step {p}proj=noop {p}step {step}", p = if plus { "+" } else { "" }),
+        });
+    }
     for t in &refused {
         h.eval(1);
         h.distinct(hash_str(t));
